@@ -12,6 +12,7 @@ import Driver.Txv
 import Driver.Sync2
 import Driver.Cv
 import Driver.Atr
+import Driver.Disp
 /-
   Line-protocol driver of the executable Lean models. `driver <suite>` reads one request per line on stdin
   and answers one line per request on stdout. One sub-driver per model family (Driver/<Suite>.lean).
@@ -33,4 +34,5 @@ def main (args : List String) : IO Unit :=
   | ["produce"] => Drv.Cv.run
   | ["cv"] => Drv.Cv.run
   | ["atr"] => Drv.Atr.run
+  | ["disp"] => Drv.Disp.run
   | _ => do IO.eprintln "usage: driver <suite>"; IO.Process.exit 2
